@@ -47,6 +47,7 @@ def items(tier):
                                 sigma=sig, nmodes=2))
     # a complex-conjugate pair with a user sorting function that orders by the imaginary part
     out.append(dict(kind="dense_cpair", id="dense-n2-std-complexpair-sortimag", n=2))
+    out.append(dict(kind="dense_cpair", id="dense-n3-std-complexpair-and-real-sortimag", n=3, with_real_eigenvalue=True))
     # complex Hermitian sparse pencils in both storage formats (the operator handed to ARPACK must invert A - sigma B itself)
     for fmt in ("csc", "csr"):
         out.append(dict(kind="sparse", id="sparse-n2-std-herm-%s-zero" % fmt, n=2, gen=False, sigma="zero", nmodes=2, herm=True, fmt=fmt))
@@ -327,7 +328,13 @@ def sc_dense_cpair(V, P, cfg):
     c = V.real("c", positive=True, default=2.0)
     if V.symbolic:
         V.assume(c > 1, "c > 1 (q^T q = c^2 - 1 > 0: the bilinear normalisation is defined)")
-    A = np.array([[a, -b * c], [b / c, a]], dtype=object if V.symbolic else float)
+    n3 = bool(cfg.get("with_real_eigenvalue"))
+    if n3:
+        # a third, exactly real eigenvalue d next to the complex pair (spectrum with real AND complex members)
+        dd = V.real("d", default=-0.25)
+        A = np.array([[a, -b * c, 0], [b / c, a, 0], [0, 0, dd]], dtype=object if V.symbolic else float)
+    else:
+        A = np.array([[a, -b * c], [b / c, a]], dtype=object if V.symbolic else float)
     if V.symbolic:
         A = wrap(A)
     else:
@@ -336,8 +343,13 @@ def sc_dense_cpair(V, P, cfg):
     if V.symbolic:
         from symx import factor
         I_ = C(R.of(0), R.of(1))
-        W = wrap(np.array([C(a, b), C(a, -b)], dtype=object))
-        Q = wrap(np.array([[C(c, R.of(0)), C(c, R.of(0))], [-I_, I_]], dtype=object))
+        Z_, O_ = C(R.of(0), R.of(0)), C(R.of(1), R.of(0))
+        if n3:
+            W = wrap(np.array([C(a, b), C(a, -b), C(dd, R.of(0))], dtype=object))
+            Q = wrap(np.array([[C(c, R.of(0)), C(c, R.of(0)), Z_], [-I_, I_, Z_], [Z_, Z_, O_]], dtype=object))
+        else:
+            W = wrap(np.array([C(a, b), C(a, -b)], dtype=object))
+            Q = wrap(np.array([[C(c, R.of(0)), C(c, R.of(0))], [-I_, I_]], dtype=object))
         factor.register("eig", (W, Q, np.array(np.asarray(A), dtype=object, copy=True), None))
     A_before = np.array(np.asarray(A), copy=True)
     m.response()
@@ -345,14 +357,16 @@ def sc_dense_cpair(V, P, cfg):
     obs = dict(n_out=int(np.size(Wo)))
     from .common import NumProver
     Pn = P if P is not None else NumProver(rtol=1e-7)
-    Pn.holds("complete-spectrum", Wo.shape == (2,) and Qo.shape == (2, 2), kind="shape")
-    if Wo.shape == (2,) and Qo.shape == (2, 2):
-        for i in range(2):
+    nn = 3 if n3 else 2
+    Pn.holds("complete-spectrum", Wo.shape == (nn,) and Qo.shape == (nn, nn), kind="shape")
+    if Wo.shape == (nn,) and Qo.shape == (nn, nn):
+        for i in range(nn):
             Pn.arrays_eq("pair[%d]:A q == lambda q" % i, A_before @ Qo[:, i], Wo[i] * Qo[:, i], kind="genuine-eigenpair")
             Pn.eq("norm[%d]:q^T q == 1" % i, Qo[:, i] @ Qo[:, i], 1, kind="normalisation")
         im = [(w.im if isinstance(w, C) else (R.of(0) if isinstance(w, R) else float(np.imag(w)))) for w in Wo]
-        Pn.holds("order[0]:by-the-sorting-function (ascending imaginary part)", im[0] <= im[1], kind="ordering")
-        Pn.holds("both-eigenvalues-returned", im[1] > 0, kind="ordering")
+        for i in range(nn - 1):
+            Pn.holds("order[%d]:by-the-sorting-function (ascending imaginary part)" % i, im[i] <= im[i + 1], kind="ordering")
+        Pn.holds("both-eigenvalues-returned", im[nn - 1] > 0, kind="ordering")
     if P is None:
         obs["_num"] = Pn
     return obs
